@@ -17,71 +17,94 @@ from ..unify import GuardFail, normalise
 WRITE_MODE_CHARS = set("wax+")
 
 
-def creating_calls(fn):
-    """[(call, path expression, how)] of calls that create / overwrite a file in fn."""
+def creating_calls(roots):
+    """[(call, path expression, how, mode)] of calls that create / overwrite a file in the given nodes."""
     out = []
-    for c in walk_no_nested(fn):
+    if isinstance(roots, ast.AST):
+        roots = [roots]
+    for c in [x for r in roots for x in walk_no_nested(r)]:
         if not isinstance(c, ast.Call):
             continue
         f = c.func
         name = norm(f)
+        kw = {k.arg: k.value for k in c.keywords if k.arg}
         if isinstance(f, ast.Attribute) and f.attr == "open":
-            mode = c.args[0] if c.args else next((k.value for k in c.keywords if k.arg == "mode"), None)
+            mode = c.args[0] if c.args else kw.get("mode")
             if isinstance(mode, ast.Constant) and isinstance(mode.value, str) and set(mode.value) & WRITE_MODE_CHARS:
                 out.append((c, f.value, f"open({mode.value!r})", mode.value))
-        elif name == "open" and c.args:
-            mode = c.args[1] if len(c.args) > 1 else next((k.value for k in c.keywords if k.arg == "mode"), None)
+        elif name == "open" and (c.args or "file" in kw):
+            mode = c.args[1] if len(c.args) > 1 else kw.get("mode")
             if isinstance(mode, ast.Constant) and isinstance(mode.value, str) and set(mode.value) & WRITE_MODE_CHARS:
-                out.append((c, c.args[0], f"open(..., {mode.value!r})", mode.value))
-        elif name in ("shutil.copyfile", "shutil.copy", "shutil.copy2", "shutil.move", "os.rename", "os.replace") and len(c.args) >= 2:
-            out.append((c, c.args[1], name, ""))
+                out.append((c, c.args[0] if c.args else kw["file"], f"open(..., {mode.value!r})", mode.value))
+        elif name in ("shutil.copyfile", "shutil.copy", "shutil.copy2", "shutil.move", "os.rename", "os.replace"):
+            dst = c.args[1] if len(c.args) >= 2 else kw.get("dst")
+            if dst is not None:
+                out.append((c, dst, name, ""))
         elif isinstance(f, ast.Attribute) and f.attr in ("write_bytes", "write_text", "touch"):
             out.append((c, f.value, f.attr, ""))
     return out
 
 
+def _exists_test(t):
+    """(path text, polarity) when t is `<p>.exists()` / `os.path.exists(p)` possibly negated"""
+    pol = True
+    while isinstance(t, ast.UnaryOp) and isinstance(t.op, ast.Not):
+        t, pol = t.operand, not pol
+    if isinstance(t, ast.Call) and isinstance(t.func, ast.Attribute) and t.func.attr == "exists" and not t.args and norm(t.func) != "os.path.exists":
+        return norm(t.func.value), pol
+    if isinstance(t, ast.Call) and norm(t.func) == "os.path.exists" and t.args:
+        return norm(t.args[0]), pol
+    return None, pol
+
+
 def exists_before_create(ct, rep, rule="exists-before-create"):
+    """Path summaries of Tdf.new / Tdf.copy: on every path that reaches a file-creating call the target path (locals
+    substituted: it is an expression over the caller's argument) was tested with exists() and found absent, and the paths on
+    which it exists end in FileExistsError."""
+    from ..facts import path_returns
     n = 0
     for name in ("new", "copy"):
         f = ct.prog.need_method(ct.tdf, name)
         fq = f"Tdf.{name}"
-        cfg = CFG(f.node)
-        calls = creating_calls(f.node)
-        if not calls:
+        paths = path_returns(f.node)
+        found = 0
+        refusals = {}  # path text -> [exception names raised when it exists]
+        for pe in paths:
+            if pe.kind == "raise":
+                e = pe.value.func if isinstance(pe.value, ast.Call) else pe.value
+                for t, pol in pe.guards:
+                    ptxt, ppol = _exists_test(t)
+                    if ptxt is not None and (ppol == pol):
+                        refusals.setdefault(ptxt, []).append((norm(e) if e is not None else "", pe.node))
+        seen = set()
+        for pe in paths:
+            for c, path, how, mode in creating_calls(pe.effects):
+                found += 1
+                p = norm(path)
+                key = (p, how, getattr(c, "lineno", 0))
+                absent = any(_exists_test(t)[0] == p and (_exists_test(t)[1] != pol) for t, pol in pe.guards)
+                from_arg = any(isinstance(x, ast.Name) and x.id in f.params for x in ast.walk(path))
+                if "x" in mode:
+                    if key not in seen:
+                        rep.ok(rule, f"{fq}: `{how}` is an exclusive creation")
+                elif not from_arg:
+                    rep.fail(rule, ct.mod.path.name, fq, c, f"`{how}` creates `{p}`, which is not (only) the path built from the caller's argument")
+                elif not absent:
+                    others = sorted({_exists_test(t)[0] for t, _ in pe.guards if _exists_test(t)[0]})
+                    rep.fail(rule, ct.mod.path.name, fq, c, f"`{how}` on `{p}` is reached on a path that has not found that same path absent (existence tests on: {others}): an existing file would be overwritten")
+                else:
+                    excs = refusals.get(p, [])
+                    bad = [e for e in excs if e[0] != "FileExistsError"]
+                    if bad:
+                        rep.fail(rule, ct.mod.path.name, fq, bad[0][1], f"an existing target is refused with {bad[0][0]}, not FileExistsError")
+                    elif not excs:
+                        rep.fail(rule, ct.mod.path.name, fq, c, f"an existing `{p}` is silently skipped instead of refused with FileExistsError")
+                    elif key not in seen:
+                        rep.ok(rule, f"{fq}: `{how}` on `{p}` is reached only after `{p}.exists()` was false; when it exists FileExistsError is raised", nontrivial=True)
+                seen.add(key)
+        if not found:
             raise AnalysisError(f"{fq}: no file-creating call found (anchor vanished)")
-        guards = []
-        for st in walk_no_nested(f.node):
-            if isinstance(st, ast.If) and st.body and isinstance(st.body[-1], ast.Raise):
-                t = st.test
-                if isinstance(t, ast.Call) and isinstance(t.func, ast.Attribute) and t.func.attr == "exists" and not t.args:
-                    e = st.body[-1].exc
-                    e = e.func if isinstance(e, ast.Call) else e
-                    guards.append((norm(t.func.value), norm(e), st))
-                elif isinstance(t, ast.Call) and norm(t.func) == "os.path.exists" and t.args:
-                    e = st.body[-1].exc
-                    e = e.func if isinstance(e, ast.Call) else e
-                    guards.append((norm(t.args[0]), norm(e), st))
-        for c, path, how, mode in calls:
-            n += 1
-            st = next(s for s in walk_no_nested(f.node) if isinstance(s, ast.stmt) and any(x is c for x in ast.walk(s)) and not isinstance(s, (ast.FunctionDef,)))
-            cn = cfg.node_of(st)
-            if "x" in mode:
-                rep.ok(rule, f"{fq}: `{how}` is an exclusive creation")
-                continue
-            p = norm(path)
-            good = [g for g in guards if g[0] == p and cn is not None and cfg.dominates(cfg.node_of(g[2]), cn)]
-            # the path variable must be the one built from the argument and not reassigned between guard and creation
-            defs = [s for s in walk_no_nested(f.node) if isinstance(s, ast.Assign) and any(norm(t) == p for t in s.targets)]
-            from_arg = bool(defs) and all(any(isinstance(x, ast.Name) and x.id in f.params for x in ast.walk(s.value)) for s in defs) or p in f.params
-            if good and good[0][1] == "FileExistsError" and len(defs) <= 1 and from_arg:
-                rep.ok(rule, f"{fq}: `{how}` on `{p}` is dominated by `if {p}.exists(): raise FileExistsError`", nontrivial=True)
-            elif good and good[0][1] != "FileExistsError":
-                rep.fail(rule, ct.mod.path.name, fq, good[0][2], f"an existing target is refused with {good[0][1]}, not FileExistsError")
-            elif not from_arg:
-                rep.fail(rule, ct.mod.path.name, fq, st, f"`{how}` creates `{p}`, which is not (only) the path built from the caller's argument")
-            else:
-                others = [g[0] for g in guards]
-                rep.fail(rule, ct.mod.path.name, fq, st, f"`{how}` on `{p}` is not dominated by an existence test on that same path (tests found on: {others}): an existing file would be overwritten")
+        n += len(seen)
     rep.floor(rule, n, 2)
 
 
@@ -129,34 +152,61 @@ def open_checks(ct, cd, rep, rule="open-checks"):
         rep.fail(rule, ct.mod.path.name, "Tdf.__enter__", enter.node, "the signature check does not precede the first decoded header field: a non-TDF file would yield data", construct="Tdf.__enter__ signature check")
 
 
+def _tdf_arg(call):
+    if isinstance(call, ast.Call) and norm(call.func) in ("Tdf", "cls"):
+        if call.args:
+            return call.args[0]
+        return next((k.value for k in call.keywords if k.arg == "filename"), None)
+    return None
+
+
 def copy_direction(ct, rep, rule="copy-direction"):
+    from ..facts import path_returns, return_leaves
     f = ct.prog.need_method(ct.tdf, "copy")
     fq = "Tdf.copy"
-    calls = [c for c in walk_no_nested(f.node) if isinstance(c, ast.Call) and norm(c.func) in ("shutil.copyfile", "shutil.copy", "shutil.copy2")]
-    if not calls:
+    n = 0
+    dsts = set()
+    for pe in path_returns(f.node):
+        for e in pe.effects:
+            for c in walk_no_nested(e):
+                if isinstance(c, ast.Call) and norm(c.func) in ("shutil.copyfile", "shutil.copy", "shutil.copy2"):
+                    n += 1
+                    kw = {k.arg: k.value for k in c.keywords if k.arg}
+                    src = c.args[0] if c.args else kw.get("src")
+                    dst = c.args[1] if len(c.args) > 1 else kw.get("dst")
+                    fl = kw.get("follow_symlinks")
+                    if fl is not None and not (isinstance(fl, ast.Constant) and fl.value is True):
+                        rep.fail(rule, ct.mod.path.name, fq, c, "follow_symlinks is disabled: for a symlinked source the 'copy' is another link to the same file, not an independent byte-identical file")
+                    dst_from_arg = dst is not None and any(isinstance(x, ast.Name) and x.id in f.params for x in ast.walk(dst)) and "self" not in {x.id for x in ast.walk(dst) if isinstance(x, ast.Name)}
+                    if src is not None and norm(src) == "self.file_path" and dst_from_arg:
+                        dsts.add(norm(dst))
+                        rep.ok(rule, f"{fq}: copies self.file_path -> {norm(dst)} (source first)", nontrivial=True)
+                    else:
+                        rep.fail(rule, ct.mod.path.name, fq, c, f"copy direction is {norm(src) if src is not None else None} -> {norm(dst) if dst is not None else None}; expected self.file_path -> the new path")
+    if not n:
         raise AnalysisError(f"{fq}: no shutil copy call (anchor vanished)")
-    c = calls[0]
-    src, dst = norm(c.args[0]), norm(c.args[1])
-    newp = None
-    for st in walk_no_nested(f.node):
-        if isinstance(st, ast.Assign) and isinstance(st.value, ast.Call) and norm(st.value.func) == "Path" and st.value.args and norm(st.value.args[0]) in f.params:
-            newp = norm(st.targets[0])
-    fl = next((k for k in c.keywords if k.arg == "follow_symlinks"), None)
-    if fl is not None and not (isinstance(fl.value, ast.Constant) and fl.value.value is True):
-        rep.fail(rule, ct.mod.path.name, fq, c, "follow_symlinks is disabled: for a symlinked source the 'copy' is another link to the same file, not an independent byte-identical file")
-    if src == "self.file_path" and dst in ([newp] + f.params):
-        rep.ok(rule, f"{fq}: copies self.file_path -> {dst} (source first)", nontrivial=True)
-    else:
-        rep.fail(rule, ct.mod.path.name, fq, c, f"copy direction is {src} -> {dst}; expected self.file_path -> the new path")
+    leaves = return_leaves(f.node)
     rets = [s for s in walk_no_nested(f.node) if isinstance(s, ast.Return)]
-    if rets and all(isinstance(r.value, ast.Call) and norm(r.value.func) == "Tdf" and norm(r.value.args[0]) in ([newp] + f.params) for r in rets):
+
+    def names_new_path(a):
+        return a is not None and (norm(a) in dsts or norm(a) in f.params or (isinstance(a, ast.Call) and norm(a.func) == "Path" and a.args and norm(a.args[0]) in f.params))
+
+    if leaves and all(names_new_path(_tdf_arg(v)) for _, v, _ in leaves):
         rep.ok(rule, f"{fq}: returns a distinct Tdf instance on the new path")
     else:
         rep.fail(rule, ct.mod.path.name, fq, rets[0] if rets else f.node, "copy does not return a new Tdf bound to the new path", construct=f"{fq} return")
     new = ct.prog.need_method(ct.tdf, "new")
     rets = [s for s in walk_no_nested(new.node) if isinstance(s, ast.Return)]
-    paths = [norm(st.targets[0]) for st in walk_no_nested(new.node) if isinstance(st, ast.Assign) and isinstance(st.value, ast.Call) and norm(st.value.func) == "Path"]
-    if rets and all(isinstance(r.value, ast.Call) and norm(r.value.func) == "Tdf" and norm(r.value.args[0]) in paths + new.params for r in rets):
+    leaves = return_leaves(new.node)
+    created = set()
+    for pe in path_returns(new.node):
+        for c, path, how, mode in creating_calls(pe.effects):
+            created.add(norm(path))
+
+    def names_created(a):
+        return a is not None and (norm(a) in created or (norm(a) in new.params and any(norm(a) in c_ for c_ in created)))
+
+    if leaves and all(names_created(_tdf_arg(v)) for _, v, _ in leaves):
         rep.ok(rule, "Tdf.new: returns a Tdf on the path it just created")
     else:
         rep.fail(rule, ct.mod.path.name, "Tdf.new", rets[0] if rets else new.node, "Tdf.new does not return a Tdf bound to the created path", construct="Tdf.new return")
